@@ -426,6 +426,7 @@ pub fn run(cx: &mut Ctx) {
 
     // --------------------------------------------- adversarial Poly1305 operands
     poly_adversarial(cx, &mut idx);
+    structured_forgeries(cx, &mut idx);
 }
 
 fn poly_case(cx: &mut Ctx, rng: &mut crate::prng::Rng, input: &[u8], key: &[u8; 32], family: &str, all_flips: bool) {
@@ -465,6 +466,94 @@ fn poly_case(cx: &mut Ctx, rng: &mut crate::prng::Rng, input: &[u8], key: &[u8; 
     bad[rng.below(16)] ^= 1 << rng.below(8);
     if let Some(r) = call(cx, "C07|OnetimeAuth::compute_and_verify", "OnetimeAuth::compute_and_verify", c, || OnetimeAuth::compute_and_verify(&bad, *key, &v)) {
         expect(cx, "C07|OnetimeAuth::compute_and_verify|accepts_wrong_mac", r.is_err(), c);
+    }
+}
+
+/// "rejects every other value": besides single-bit flips, forged authenticators whose differences from the right one are
+/// *structured*: the same mask at two positions (all pairs), at every 4th / 8th / 16th byte, in one half only, in every byte.
+/// A comparison that folds words or lanes together (xor, and, or of halves) is wrong on some of these and right on all
+/// single-bit flips.
+fn structured_forgeries(cx: &mut Ctx, idx: &mut u64) {
+    let nmsg = cx.tier.pick(1usize, 3, 12);
+    for mi in 0..nmsg {
+        *idx += 1;
+        if !cx.mine(*idx) {
+            continue;
+        }
+        let mut rng = cx.rng.fork(*idx);
+        let key: [u8; 32] = rng.arr();
+        let msg = rng.bytes([0usize, 1, 33, 200][mi % 4]);
+        let mut t32 = [0u8; 32];
+        crypto_auth(&mut t32, &msg, &key);
+        let mut t16 = [0u8; 16];
+        crypto_onetimeauth(&mut t16, &msg, &key);
+        let masks = [0x01u8, 0x80, 0xff, 0x5a];
+        // difference patterns as lists of byte positions
+        let patterns = |n: usize| -> Vec<Vec<usize>> {
+            let mut v: Vec<Vec<usize>> = Vec::new();
+            for i in 0..n {
+                for j in i + 1..n {
+                    v.push(vec![i, j]);
+                }
+            }
+            for step in [4usize, 8, 16] {
+                for off in 0..step.min(n) {
+                    let p: Vec<usize> = (off..n).step_by(step).collect();
+                    if p.len() >= 2 {
+                        v.push(p);
+                    }
+                }
+            }
+            v.push((0..n / 2).collect());
+            v.push((n / 2..n).collect());
+            v.push((0..n).collect());
+            v
+        };
+        let msgv = msg.to_vec();
+        for pat in patterns(32) {
+            for mask in masks {
+                let mut bad = t32;
+                for &i in &pat {
+                    bad[i] ^= mask;
+                }
+                cx.eval();
+                let c = || json!({"family":"structured_forgery","positions":pat,"mask":mask,"msglen":msg.len()});
+                if crypto_auth_verify(&bad, &msg, &key).is_ok() {
+                    cx.violation("C07|crypto_auth_verify|accepts_wrong_mac|structured_difference", c());
+                }
+                if Auth::compute_and_verify(&bad, key, &msgv).is_ok() {
+                    cx.violation("C07|Auth::compute_and_verify|accepts_wrong_mac|structured_difference", c());
+                }
+                let mut a = Auth::new(key);
+                a.update(&msgv);
+                if a.verify(&bad).is_ok() {
+                    cx.violation("C07|Auth::verify|accepts_wrong_mac|structured_difference", c());
+                }
+            }
+        }
+        for pat in patterns(16) {
+            for mask in masks {
+                let mut bad = t16;
+                for &i in &pat {
+                    bad[i] ^= mask;
+                }
+                cx.eval();
+                let c = || json!({"family":"structured_forgery","positions":pat,"mask":mask,"msglen":msg.len()});
+                if crypto_onetimeauth_verify(&bad, &msg, &key).is_ok() {
+                    cx.violation("C07|crypto_onetimeauth_verify|accepts_wrong_mac|structured_difference", c());
+                }
+                if OnetimeAuth::compute_and_verify(&bad, key, &msgv).is_ok() {
+                    cx.violation("C07|OnetimeAuth::compute_and_verify|accepts_wrong_mac|structured_difference", c());
+                }
+                let mut a = OnetimeAuth::new(key);
+                a.update(&msgv);
+                if a.verify(&bad).is_ok() {
+                    cx.violation("C07|OnetimeAuth::verify|accepts_wrong_mac|structured_difference", c());
+                }
+            }
+        }
+        cx.key(&format!("structured forgeries {}", mi));
+        cx.cover("structured_forgeries", &format!("msglen={}", msg.len()));
     }
 }
 
